@@ -75,30 +75,6 @@ Section P.
   Qed.
 End P.
 
-(* ---------- guards (C09) ---------- *)
-Theorem tlcp_client_done_guards c : tlcp_client_done c = true -> cc_anchors c = true ->
-  cc_chain c = true /\ cc_sig c = true /\ cc_finished c = true.
-Proof.
-  unfold tlcp_client_done. intros Hd Ha. rewrite Ha in Hd. cbv iota in Hd.
-  repeat match goal with Hx : (_ && _)%bool = true |- _ => apply andb_true_iff in Hx; destruct Hx end. auto.
-Qed.
-Theorem tls_client_done_guards c : tls_client_done c = true ->
-  cc_chain c = true /\ cc_sig c = true /\ cc_finished c = true.
-Proof.
-  unfold tls_client_done. intros Hd.
-  repeat match goal with Hx : (_ && _)%bool = true |- _ => apply andb_true_iff in Hx; destruct Hx end. auto.
-Qed.
-Theorem server_done_guards s : server_done s = true -> sc_client_auth s = true ->
-  sc_cert_present s = true /\ sc_chain s = true /\ sc_cert_verify s = true /\ sc_finished s = true.
-Proof.
-  unfold server_done. intros Hd Ha. rewrite Ha in Hd. cbv iota in Hd.
-  repeat match goal with Hx : (_ && _)%bool = true |- _ => apply andb_true_iff in Hx; destruct Hx end. auto.
-Qed.
-(* the gap the model makes explicit: a TLCP client without a trust store completes without a chain check *)
-Example tlcp_client_without_anchors_skips_chain :
-  tlcp_client_done (mk_cc false true false true true true) = true.
-Proof. reflexivity. Qed.
-
 (* ---------- the concrete Finished functions of Tls/KeySched.v ---------- *)
 Definition F12c (ms h : list N) : list N := or_nil (tls_prf ms L_client_finished h [] 12).
 Definition F12s (ms h : list N) : list N := or_nil (tls_prf ms L_server_finished h [] 12).
